@@ -1539,6 +1539,16 @@ class Exec:
     def std_call(self, st, callee, name, args, t):
         n = callees.strip_turbofish(name)
         dv = [self.deref_val(st, a) for a in args]
+        m_op = re.search(r"<&?f64 as (?:std|core)::ops::(Add|Sub|Mul|Div)(?:<&?f64>)?>::(add|sub|mul|div)$", callees.strip_turbofish(n))
+        if m_op and len(args) == 2:
+            # the operator traits called by name (`Div::div(a, b)`, `a / &b`): the same arithmetic, the same division site
+            a_, b_ = (self.deref_val(st, x_) if isinstance(x_, tuple) and x_ and x_[0] == "ref" else x_ for x_ in args)
+            if m_op.group(1) == "Div":
+                fn_, blk_, span_, si_ = self.cur_site
+                if fn_ is not None:
+                    self.sites.append({"fn": fn_.label, "path": fn_.path, "block": blk_, "stmt": si_, "what": "fdiv", "kind": "Div", "operands": {"num": a_, "den": b_},
+                                       "facts": dict(st.facts), "span": t["span"], "root_depth": self.depth})
+            return fold({"Add": "+", "Sub": "-", "Mul": "*", "Div": "/"}[m_op.group(1)], a_, b_)
         if re.search(r"<impl f64>::recip$", n) and len(args) == 1:
             fn_, blk_, span_, si_ = self.cur_site if self.cur_site[0] is not None else (None, None, t["span"], None)
             if fn_ is not None:
